@@ -39,6 +39,7 @@ class CsvProjectIo(ProjectIoInterface):
             na_values=["None", "none"],
             sep=sep,
             dtype=text_column_dtypes(column_names),
+            float_precision="round_trip",
         )
         df.columns = [column.lower() for column in df.columns]
         df = df.rename(columns=OPTION_NAMES_DESERIALIZED)
